@@ -162,7 +162,7 @@ Proof.
   - cbn in E. inversion E; subst. cbn. auto.
   - cbn [forallb] in Hwf. apply andb_true_iff in Hwf as [Ho Hr].
     pose proof (ops_size_nonneg r) as Hnn.
-    destruct o as [xs | v | i v | i | | i | v]; cbn [exec spec ops_size op_wf] in *.
+    destruct o as [xs | v | i v | i | | i | v | vs | | i v | i]; cbn [exec spec ops_size op_wf] in *.
     + apply (IH _ xs _ Hr (rt_of_list_inv xs)) in E; [exact E | lia].
     + apply (IH _ (l ++ [v]) _ Hr (rt_append_inv _ _ v Hinv)) in E; [exact E |].
       rewrite app_length, Nat2Z.inj_add. cbn. lia.
@@ -200,6 +200,32 @@ Proof.
         rewrite app_nth1 in E by lia. exact E.
       * inversion E; subst. cbn. auto.
     + apply (IH _ _ _ Hr Hinv) in E; [| lia]. rewrite println_all in E. exact E.
+    + (* call: grow *)
+      apply (IH _ (l ++ vs) _ Hr (fold_append_inv vs _ _ Hinv)) in E; [exact E |].
+      rewrite app_length, Nat2Z.inj_add. lia.
+    + (* call: read-only len *)
+      apply (IH _ _ _ Hr Hinv) in E; [| lia]. rewrite println_all in E.
+      unfold rt_len in E. destruct Hinv as [_ Hl]. rewrite Hl in E. exact E.
+    + (* call: set *)
+      unfold rt_len in E. destruct Hinv as [Hd Hl]. rewrite Hl in E.
+      rewrite index_i32_exact in E by (try exact Ho; lia).
+      destruct (valid_index (ix_val i) (Z.of_nat (length l))) eqn:V.
+      * assert (Hk : 0 <= norm_index (ix_val i) (Z.of_nat (length l)) < Z.of_nat (length l)).
+        { unfold valid_index in V. apply andb_true_iff in V as [V1 V2]. apply Z.leb_le in V1. apply Z.ltb_lt in V2.
+          unfold norm_index. destruct (Z.ltb_spec (ix_val i) 0); lia. }
+        destruct (rt_set_ok a l _ v (conj Hd Hl) Hk) as [a' [Es Hinv']]. rewrite Es in E.
+        apply (IH _ _ _ Hr Hinv') in E; [exact E |]. rewrite upd_length. lia.
+      * inversion E; subst. cbn. auto.
+    + (* call: get *)
+      unfold rt_len in E. destruct Hinv as [Hd Hl]. rewrite Hl in E.
+      rewrite index_i32_exact in E by (try exact Ho; lia).
+      destruct (valid_index (ix_val i) (Z.of_nat (length l))) eqn:V.
+      * assert (Hk : 0 <= norm_index (ix_val i) (Z.of_nat (length l)) < Z.of_nat (length l)).
+        { unfold valid_index in V. apply andb_true_iff in V as [V1 V2]. apply Z.leb_le in V1. apply Z.ltb_lt in V2.
+          unfold norm_index. destruct (Z.ltb_spec (ix_val i) 0); lia. }
+        rewrite (rt_get_ok a l _ (conj Hd Hl) Hk) in E.
+        apply (IH _ _ _ Hr (conj Hd Hl)) in E; [| lia]. rewrite println_all in E. exact E.
+      * inversion E; subst. cbn. auto.
 Qed.
 
 (* ---------------------------------------------------------------- the static tracker never mis-rejects *)
@@ -224,7 +250,7 @@ Lemma static_sound str : forall ops l out tr,
   tracked_ok tr l -> snd (spec str ops l out) = Exited -> static_ops tr ops = true.
 Proof.
   induction ops as [| o r IH]; intros l out tr Ht E; [reflexivity |].
-  destruct o as [xs | v | i v | i | | i | v]; cbn [spec static_ops] in *.
+  destruct o as [xs | v | i v | i | | i | v | vs | | i v | i]; cbn [spec static_ops] in *.
   - eapply IH; [| exact E]. reflexivity.
   - eapply IH; [| exact E]. exact I.
   - destruct (valid_index (ix_val i) (Z.of_nat (length l))) eqn:V; [| discriminate].
@@ -236,6 +262,12 @@ Proof.
   - destruct (valid_index (ix_val i) (Z.of_nat (length str))) eqn:V; [| discriminate].
     eapply IH; [exact Ht | exact E].
   - eapply IH; [exact Ht | exact E].
+  - eapply IH; [| exact E]. exact I.
+  - eapply IH; [| exact E]. exact I.
+  - destruct (valid_index (ix_val i) (Z.of_nat (length l))) eqn:V; [| discriminate].
+    eapply IH; [| exact E]. exact I.
+  - destruct (valid_index (ix_val i) (Z.of_nat (length l))) eqn:V; [| discriminate].
+    eapply IH; [| exact E]. exact I.
 Qed.
 
 (* ---------------------------------------------------------------- whole programs *)
@@ -268,6 +300,21 @@ Lemma stale_tracker_misrejects :
   static_accepts append_witness = true.
 Proof. vm_compute. repeat split; reflexivity. Qed.
 
+(* a tracker that keeps the length across `grow(a, ..)` rejects a valid history:
+   let a := [1,2,3]; grow_2(a, 40, 50); a[3]; a[-5]; a[4] = 51; a[4] *)
+Definition grow_witness : prog :=
+  {| p_str := []; p_init := [1; 2; 3];
+     p_ops := [OCallGrow [40; 50];
+               OGet {| ix_kind := KConst; ix_ty := I32; ix_val := 3 |};
+               OGet {| ix_kind := KConst; ix_ty := I32; ix_val := -5 |};
+               OSet {| ix_kind := KConst; ix_ty := I32; ix_val := 4 |} 51;
+               OGet {| ix_kind := KConst; ix_ty := I32; ix_val := 4 |}] |}.
+
+Lemma byvalue_tracker_misrejects :
+  static_ops_byvalue (Some 3) (p_ops grow_witness) = false /\ spec_run grow_witness = ([40; 1; 51], Exited) /\
+  run grow_witness = (true, [40; 1; 51], Exited).
+Proof. vm_compute. repeat split; reflexivity. Qed.
+
 (* the panic path: with the flush every printed line is delivered, without it the buffer is lost *)
 Lemma panic_flush_delivers c : delivered (ch_panic c) = delivered c ++ buffered c.
 Proof. reflexivity. Qed.
@@ -287,11 +334,17 @@ Definition demo : prog :=
                OGet {| ix_kind := KConst; ix_ty := I8; ix_val := -2 |};
                OSGet {| ix_kind := KOpaque; ix_ty := I16; ix_val := -1 |};
                OLen;
+               OCallGrow [60; 70];
+               OCallGrow [];
+               OGet {| ix_kind := KConst; ix_ty := I32; ix_val := 6 |};
+               OCallSet {| ix_kind := KOpaque; ix_ty := I64; ix_val := -7 |} 11;
+               OCallGet {| ix_kind := KOpaque; ix_ty := U8; ix_val := 0 |};
+               OCallLen;
                OGet {| ix_kind := KOpaque; ix_ty := I64; ix_val := 4294967296 |};
                OPrint 1] |}.
 
 Lemma demo_wf : prog_wf demo.
 Proof. unfold prog_wf. vm_compute. repeat split; reflexivity. Qed.
 
-Lemma demo_runs : run demo = (true, [50; 10; 99; 121; 5], Panicked) /\ spec_run demo = ([50; 10; 99; 121; 5], Panicked).
+Lemma demo_runs : run demo = (true, [50; 10; 99; 121; 5; 70; 11; 7], Panicked) /\ spec_run demo = ([50; 10; 99; 121; 5; 70; 11; 7], Panicked).
 Proof. vm_compute. split; reflexivity. Qed.
